@@ -4918,14 +4918,18 @@ class DecRoAffine(RoAffine):
         raffine_values = self.raffine()
         affine_values = self.affine()
 
-        if isinstance(raffine_values, pd.Series) or sw:
+        series = (isinstance(raffine_values, pd.Series) or
+                  isinstance(affine_values, pd.Series))
+        if series or sw:
             output = []
             for i in rvecs.index:
                 if isinstance(raffine_values, pd.Series):
                     raffine_value = raffine_values.loc[i]
-                    affine_value = affine_values.loc[i]
                 else:
                     raffine_value = raffine_values
+                if isinstance(affine_values, pd.Series):
+                    affine_value = affine_values.loc[i]
+                else:
                     affine_value = affine_values
                 nrand = raffine_value.shape[1]
 
